@@ -1,1 +1,511 @@
 //! verif-hooks: units area (read-only accessors; see mod.rs)
+//!
+//! * the raw unit tables of this tree, verbatim (`raw_unit_defs`), plus every
+//!   string literal of `units/builtin.rs` (`source_literals`) so that the
+//!   private arrays (short prefixes, currency identifiers) can be enumerated
+//!   by probing `builtin_query` instead of by parsing array syntax;
+//! * the table lookup function itself (`builtin_query`);
+//! * the tree's own resolver applied to a name (`resolve`) or to a definition
+//!   / expression string (`eval_expr`), returning the raw representation of
+//!   the resulting number (components, base-unit maps, scales as exact
+//!   sign/num/den with the Simple/Pi pattern, exact flag) and its reduction
+//!   by the tree's own `to_hashmap_and_scale`.
+//!
+//! Nothing here changes behaviour or adds state.
+
+use crate::error::FendError;
+use crate::interrupt::Never;
+use crate::num::Number;
+use std::borrow::Cow;
+
+/// A second instance of the table module, compiled from the same source
+/// file, so that its `pub(crate)` items can be read without editing it.
+#[allow(dead_code, unused_imports)]
+#[path = "../units/builtin.rs"]
+mod builtin_src;
+
+const BUILTIN_SOURCE: &str = include_str!("../units/builtin.rs");
+
+// ---------------------------------------------------------------------------
+// raw tables
+
+#[derive(Clone, Debug)]
+pub struct RawDef {
+	pub group: usize,
+	pub singular: &'static str,
+	pub plural: &'static str,
+	pub definition: &'static str,
+}
+
+/// `ALL_UNIT_DEFS`, in table order, verbatim (plural may be empty).
+#[must_use]
+pub fn raw_unit_defs() -> Vec<RawDef> {
+	let mut out = vec![];
+	for (gi, group) in builtin_src::ALL_UNIT_DEFS.iter().enumerate() {
+		for (s, p, d, _) in *group {
+			out.push(RawDef {
+				group: gi,
+				singular: s,
+				plural: p,
+				definition: d,
+			});
+		}
+	}
+	out
+}
+
+/// Every distinct string literal occurring in `units/builtin.rs` (outside
+/// comments), unescaped, in order of first occurrence.
+#[must_use]
+pub fn source_literals() -> Vec<String> {
+	let src: Vec<char> = BUILTIN_SOURCE.chars().collect();
+	let mut out: Vec<String> = vec![];
+	let mut i = 0;
+	let n = src.len();
+	while i < n {
+		let c = src[i];
+		if c == '/' && i + 1 < n && src[i + 1] == '/' {
+			while i < n && src[i] != '\n' {
+				i += 1;
+			}
+			continue;
+		}
+		if c == '/' && i + 1 < n && src[i + 1] == '*' {
+			i += 2;
+			while i + 1 < n && !(src[i] == '*' && src[i + 1] == '/') {
+				i += 1;
+			}
+			i += 2;
+			continue;
+		}
+		if c == '\'' {
+			// char literal or lifetime: skip 'x' / '\x' forms, leave lifetimes
+			if i + 2 < n && src[i + 1] == '\\' {
+				i += 2;
+				while i < n && src[i] != '\'' {
+					i += 1;
+				}
+				i += 1;
+				continue;
+			}
+			if i + 2 < n && src[i + 2] == '\'' {
+				i += 3;
+				continue;
+			}
+			i += 1;
+			continue;
+		}
+		if c == '"' {
+			i += 1;
+			let mut s = String::new();
+			while i < n && src[i] != '"' {
+				if src[i] == '\\' && i + 1 < n {
+					i += 1;
+					match src[i] {
+						'n' => s.push('\n'),
+						't' => s.push('\t'),
+						'r' => s.push('\r'),
+						'0' => s.push('\0'),
+						'u' => {
+							// \u{hex}
+							let mut j = i + 1;
+							let mut v: u32 = 0;
+							if j < n && src[j] == '{' {
+								j += 1;
+								while j < n && src[j] != '}' {
+									v = v.wrapping_mul(16)
+										.wrapping_add(src[j].to_digit(16).unwrap_or(0));
+									j += 1;
+								}
+								i = j;
+							}
+							s.push(char::from_u32(v).unwrap_or('\u{fffd}'));
+						}
+						'\n' => {
+							// line continuation: skip leading whitespace
+							while i + 1 < n && src[i + 1].is_whitespace() {
+								i += 1;
+							}
+						}
+						other => s.push(other),
+					}
+					i += 1;
+					continue;
+				}
+				s.push(src[i]);
+				i += 1;
+			}
+			i += 1;
+			if !out.contains(&s) {
+				out.push(s);
+			}
+			continue;
+		}
+		i += 1;
+	}
+	out
+}
+
+/// `units::builtin::query_unit` (the table lookup, without custom units or
+/// C/F handling).
+#[must_use]
+pub fn builtin_query(
+	ident: &str,
+	short_prefixes: bool,
+	case_sensitive: bool,
+) -> Option<(String, String, String)> {
+	builtin_src::query_unit(ident, short_prefixes, case_sensitive)
+		.map(|(s, p, d)| (s.into_owned(), p.into_owned(), d.into_owned()))
+}
+
+/// `IMPLICIT_UNIT_MAP` and the default-unit lookup of this tree.
+#[must_use]
+pub fn implicit_unit_map() -> Vec<(&'static str, &'static str)> {
+	crate::units::IMPLICIT_UNIT_MAP.to_vec()
+}
+
+#[must_use]
+pub fn default_unit_for(base_units: &str) -> Option<String> {
+	crate::units::lookup_default_unit(base_units).map(str::to_string)
+}
+
+// ---------------------------------------------------------------------------
+// context construction
+
+#[derive(Clone, Debug, Default)]
+pub enum Rates {
+	/// no exchange-rate handler installed
+	#[default]
+	Absent,
+	/// deterministic fake handler (see `fake_rate`)
+	Fake,
+	/// a handler that always fails
+	Failing,
+}
+
+#[derive(Clone, Debug, Default)]
+pub struct CtxSpec {
+	/// `true` = `use_coulomb_and_farad()` was called
+	pub coulomb_farad: bool,
+	pub rates: Rates,
+	/// (singular, plural, definition, attribute) with attribute one of
+	/// "none" "l" "s" "lp" "alias"
+	pub custom_units: Vec<(String, String, String, String)>,
+}
+
+/// The deterministic fake exchange rate: a multiple of 1/4 in [0.25, 64]
+/// derived from the currency code, so that its decimal rendering is short
+/// and exact.
+#[must_use]
+pub fn fake_rate(currency: &str) -> f64 {
+	let mut h: u32 = 7;
+	for b in currency.bytes() {
+		h = (h * 31 + u32::from(b)) % 256;
+	}
+	f64::from(h + 1) / 4.0
+}
+
+#[must_use]
+pub fn make_context(spec: &CtxSpec) -> crate::Context {
+	let mut ctx = crate::Context::new();
+	if spec.coulomb_farad {
+		ctx.use_coulomb_and_farad();
+	}
+	match spec.rates {
+		Rates::Absent => {}
+		Rates::Fake => ctx.set_exchange_rate_handler_v1(
+			|c: &str| -> Result<f64, Box<dyn std::error::Error + Send + Sync + 'static>> {
+				Ok(fake_rate(c))
+			},
+		),
+		Rates::Failing => ctx.set_exchange_rate_handler_v1(
+			|_c: &str| -> Result<f64, Box<dyn std::error::Error + Send + Sync + 'static>> {
+				Err("verif: exchange rates unavailable".into())
+			},
+		),
+	}
+	for (s, p, d, a) in &spec.custom_units {
+		let attr = match a.as_str() {
+			"l" => crate::CustomUnitAttribute::AllowLongPrefix,
+			"s" => crate::CustomUnitAttribute::AllowShortPrefix,
+			"lp" => crate::CustomUnitAttribute::IsLongPrefix,
+			"alias" => crate::CustomUnitAttribute::Alias,
+			_ => crate::CustomUnitAttribute::None,
+		};
+		ctx.define_custom_unit_v1(s, p, d, &attr);
+	}
+	ctx
+}
+
+// ---------------------------------------------------------------------------
+// raw representation of a number with units
+
+/// A real number as stored: pattern 1 = Simple(r), 2 = Pi(r) meaning r*pi;
+/// r = sign * num / den (sign 1 = negative, 2 = positive), decimal strings.
+#[derive(Clone, Debug)]
+pub struct RawReal {
+	pub pattern: u8,
+	pub sign: u8,
+	pub num: String,
+	pub den: String,
+}
+
+#[derive(Clone, Debug)]
+pub struct RawComplex {
+	pub re: RawReal,
+	pub im: RawReal,
+}
+
+#[derive(Clone, Debug)]
+pub struct RawNamedUnit {
+	pub prefix: String,
+	pub singular: String,
+	pub plural: String,
+	pub alias: bool,
+	/// base unit name -> exponent, sorted by name
+	pub base_units: Vec<(String, RawComplex)>,
+	pub scale: RawComplex,
+}
+
+#[derive(Clone, Debug)]
+pub struct RawValue {
+	/// distribution parts (value, probability); a plain number has one part
+	pub parts: Vec<(RawComplex, RawReal)>,
+	pub components: Vec<(RawNamedUnit, RawComplex)>,
+	pub exact: bool,
+	pub simplifiable: bool,
+}
+
+#[derive(Clone, Debug)]
+pub struct Resolved {
+	/// the number as the resolver returned it
+	pub raw: RawValue,
+	/// the same number turned into one unit by the tree's own
+	/// `create_unit_value_from_value` (base-unit map and scale from
+	/// `to_hashmap_and_scale`, times the numeric value); `Err` = variant name
+	pub reduced: Result<(RawNamedUnit, bool), String>,
+}
+
+struct Rd<'a> {
+	b: &'a [u8],
+	i: usize,
+}
+
+impl Rd<'_> {
+	fn u8(&mut self) -> Option<u8> {
+		let v = *self.b.get(self.i)?;
+		self.i += 1;
+		Some(v)
+	}
+	fn u64(&mut self) -> Option<u64> {
+		let s = self.b.get(self.i..self.i + 8)?;
+		self.i += 8;
+		let mut a = [0u8; 8];
+		a.copy_from_slice(s);
+		Some(u64::from_be_bytes(a))
+	}
+	fn len(&mut self) -> Option<usize> {
+		usize::try_from(self.u64()?).ok()
+	}
+	fn bool(&mut self) -> Option<bool> {
+		match self.u8()? {
+			0 => Some(false),
+			1 => Some(true),
+			_ => None,
+		}
+	}
+	fn string(&mut self) -> Option<String> {
+		let n = self.len()?;
+		let s = self.b.get(self.i..self.i + n)?;
+		self.i += n;
+		String::from_utf8(s.to_vec()).ok()
+	}
+	/// decimal rendering of a serialized BigUint (limbs little-endian)
+	fn biguint(&mut self) -> Option<String> {
+		let limbs: Vec<u64> = match self.u8()? {
+			1 => vec![self.u64()?],
+			2 => {
+				let n = self.len()?;
+				let mut v = Vec::with_capacity(n);
+				for _ in 0..n {
+					v.push(self.u64()?);
+				}
+				v
+			}
+			_ => return None,
+		};
+		Some(limbs_to_decimal(&limbs))
+	}
+	fn bigrat(&mut self) -> Option<(u8, String, String)> {
+		let sign = self.u8()?;
+		let num = self.biguint()?;
+		let den = self.biguint()?;
+		Some((sign, num, den))
+	}
+	fn real(&mut self) -> Option<RawReal> {
+		let pattern = self.u8()?;
+		let (sign, num, den) = self.bigrat()?;
+		Some(RawReal {
+			pattern,
+			sign,
+			num,
+			den,
+		})
+	}
+	fn complex(&mut self) -> Option<RawComplex> {
+		Some(RawComplex {
+			re: self.real()?,
+			im: self.real()?,
+		})
+	}
+	fn named_unit(&mut self) -> Option<RawNamedUnit> {
+		let prefix = self.string()?;
+		let singular = self.string()?;
+		let plural = self.string()?;
+		let alias = self.bool()?;
+		let n = self.len()?;
+		let mut base_units = Vec::with_capacity(n);
+		for _ in 0..n {
+			let k = self.string()?;
+			let v = self.complex()?;
+			base_units.push((k, v));
+		}
+		base_units.sort_by(|a, b| a.0.cmp(&b.0));
+		let scale = self.complex()?;
+		Some(RawNamedUnit {
+			prefix,
+			singular,
+			plural,
+			alias,
+			base_units,
+			scale,
+		})
+	}
+}
+
+fn limbs_to_decimal(limbs: &[u64]) -> String {
+	// little-endian base-2^64 limbs -> decimal, by repeated division by 10^18
+	let mut v: Vec<u64> = limbs.to_vec();
+	while v.len() > 1 && *v.last().unwrap() == 0 {
+		v.pop();
+	}
+	if v.iter().all(|&x| x == 0) {
+		return "0".to_string();
+	}
+	let mut chunks: Vec<u64> = vec![];
+	const D: u128 = 1_000_000_000_000_000_000;
+	while !(v.len() == 1 && v[0] == 0) {
+		let mut rem: u128 = 0;
+		for x in v.iter_mut().rev() {
+			let cur = (rem << 64) | u128::from(*x);
+			*x = (cur / D) as u64;
+			rem = cur % D;
+		}
+		chunks.push(rem as u64);
+		while v.len() > 1 && *v.last().unwrap() == 0 {
+			v.pop();
+		}
+	}
+	let mut s = String::new();
+	for (k, c) in chunks.iter().rev().enumerate() {
+		if k == 0 {
+			s.push_str(&c.to_string());
+		} else {
+			s.push_str(&format!("{c:018}"));
+		}
+	}
+	s
+}
+
+fn raw_value(n: &Number) -> Option<RawValue> {
+	let mut bytes = vec![];
+	n.serialize(&mut bytes).ok()?;
+	let mut r = Rd { b: &bytes, i: 0 };
+	let np = r.len()?;
+	let mut parts = Vec::with_capacity(np);
+	for _ in 0..np {
+		let v = r.complex()?;
+		let (sign, num, den) = r.bigrat()?;
+		parts.push((
+			v,
+			RawReal {
+				pattern: 1,
+				sign,
+				num,
+				den,
+			},
+		));
+	}
+	let nc = r.len()?;
+	let mut components = Vec::with_capacity(nc);
+	for _ in 0..nc {
+		let u = r.named_unit()?;
+		let e = r.complex()?;
+		components.push((u, e));
+	}
+	let exact = r.bool()?;
+	let simplifiable = *bytes.last()? == 1;
+	Some(RawValue {
+		parts,
+		components,
+		exact,
+		simplifiable,
+	})
+}
+
+/// Name of the error variant (robust to re-worded messages) and the message.
+fn err_kind(e: &FendError) -> (String, String) {
+	let dbg = format!("{e:?}");
+	let name: String = dbg
+		.chars()
+		.take_while(|c| c.is_ascii_alphanumeric() || *c == '_')
+		.collect();
+	(name, e.to_string())
+}
+
+fn describe(n: &Number) -> Result<Resolved, (String, String)> {
+	let int = &Never;
+	let raw = raw_value(n).ok_or_else(|| ("HookDecode".to_string(), String::new()))?;
+	let reduced = match Number::create_unit_value_from_value(
+		n,
+		Cow::Borrowed(""),
+		false,
+		Cow::Borrowed("x"),
+		Cow::Borrowed("x"),
+		int,
+	) {
+		Err(e) => Err(err_kind(&e).0),
+		Ok(v) => match raw_value(&v) {
+			Some(rv) if rv.components.len() == 1 => {
+				Ok((rv.components[0].0.clone(), rv.exact))
+			}
+			_ => Err("HookDecode".to_string()),
+		},
+	};
+	Ok(Resolved { raw, reduced })
+}
+
+/// `units::query_unit(ident)` on a fresh context built from `spec`.
+///
+/// # Errors
+/// (error variant name, message) of the tree's resolver.
+pub fn resolve(ident: &str, spec: &CtxSpec) -> Result<Resolved, (String, String)> {
+	let mut ctx = make_context(spec);
+	let v = crate::units::query_unit(ident, crate::Attrs::default(), &mut ctx, &Never)
+		.map_err(|e| err_kind(&e))?;
+	let n = v.expect_num().map_err(|e| err_kind(&e))?;
+	describe(&n)
+}
+
+/// The evaluator applied to an expression (used for definition strings), on
+/// a fresh context built from `spec`; the result must be a number.
+///
+/// # Errors
+/// (error variant name, message).
+pub fn eval_expr(expr: &str, spec: &CtxSpec) -> Result<Resolved, (String, String)> {
+	let mut ctx = make_context(spec);
+	let v = crate::eval::evaluate_to_value(expr, None, crate::Attrs::default(), &mut ctx, &Never)
+		.map_err(|e| err_kind(&e))?;
+	let n = v.expect_num().map_err(|e| err_kind(&e))?;
+	describe(&n)
+}
